@@ -235,7 +235,7 @@ def determinism_sample(pid, seed, tier, configs, results, m):
 
 
 def write_replay(pid, seed, tier, idx, run, v, nexec):
-    d = os.path.join(VERIF, "replays")
+    d = os.environ.get("VERIF_REPLAY_DIR", os.path.join(VERIF, "replays"))
     os.makedirs(d, exist_ok=True)
     path = os.path.join(d, f"{pid}-{seed}-{tier}-{idx}.json")
     with open(path, "w") as fh:
@@ -304,8 +304,10 @@ def write_evidence(m, pid, tier, seed, results, t0, batch_wall, known_seen,
           "assumptions": m.assumptions,
           "wall_s": round(time.time() - t0, 2),
           "violations": len(reported)}
-    os.makedirs(os.path.join(VERIF, "evidence"), exist_ok=True)
-    with open(os.path.join(VERIF, "evidence", f"{pid}.json"), "w") as fh:
+    evdir = os.environ.get("VERIF_EVIDENCE_DIR",
+                           os.path.join(VERIF, "evidence"))
+    os.makedirs(evdir, exist_ok=True)
+    with open(os.path.join(evdir, f"{pid}.json"), "w") as fh:
         json.dump(ev, fh, indent=1, default=str)
     if zero:
         log(f"warning: probes at zero: {zero}")
